@@ -276,9 +276,11 @@ def forceDelete (line : Nat) (p : Tid) (pid : Nat) : M Unit := do
   let st ← get
   if (← pcOf p) = .d0 then
     for (g, o) in st.cur do
-      if (← pcOf g) = .l0 ∧ !o.ran ∧ source o = some pid then advs line g [.l1, .w0, .w1]
-    advs line p [.d1, .d2, .d3, .r0]
-  else if (← pcOf p) = .r0 then pure ()
+      -- (a joiner that panicked joins the first panicking flight that is deleted while it is invoked)
+      if (← pcOf g) = .l0 ∧ !o.ran ∧ (source o = some pid ∨ (o.panicked ∧ st.s.pn p ∧ st.s.key g = st.s.key p)) then
+        advs line g [.l1, .w0, .w1]
+    advs line p [.d1, .d2, .d3, (if (← get).s.pn p then .px else .r0)]
+  else if (← pcOf p) = .r0 ∨ (← pcOf p) = .px then pure ()
   else throw (line, s!"model: the flight of call {pid} (goroutine {p}) is still running ({repr (← pcOf p)})",
               "the implementation started another flight for the key / handed its result out")
 
@@ -303,9 +305,11 @@ def onEvent (e : Ev) : M Unit := do
     | some (p, pid) => forceDelete ln p pid
     | none => pure ()
     -- leader; the map has no instance (else `create` would not run)
-    advs ln g [.l1, .n0, .n1, .n2, .n3, .g0, .g1, .g2, .g3, .g4, .g5]
+    advs ln g [.l1, .n0, .n1, .n2, .n3, .g0, .g1, .g2, .g3, .g4]
+    if o.spanic then tag "rm-model-create-panics"; adv ln g 1 .gp else adv ln g 0 .g5
   | .fe =>
-    if o.serr then adv ln g 0 .m2
+    if o.spanic then pure ()
+    else if o.serr then adv ln g 0 .m2
     else
       adv ln g (o.id + 1) .g6
       advs ln g [.g7, .g8, .m2]
@@ -320,6 +324,7 @@ def onEvent (e : Ev) : M Unit := do
           -- a flight is registered: join it if that explains the result, else let it finish first
           let po := (← get).cur.lookup p
           let explains : Bool := source o == some pid || (o.val.isSome && (match po with | some q => !q.ran | none => false))
+            || (o.panicked && (match po with | some q => q.spanic | none => false))
           if explains then
             tag "rm-model-joined-flight"
             advs ln g [.l1, .w0, .w1]
@@ -337,14 +342,20 @@ def onEvent (e : Ev) : M Unit := do
           let p := st.s.leader c
           forceDelete ln p (((st.cur.lookup p).map (·.id)).getD 0)
         adv ln g 0 .w2
+    let nrets := (← get).s.rets.length
     adv ln g 0 .idle
     let st ← get
-    match st.s.rets.head? with
-    | none => throw (ln, "model: no return recorded", "return")
-    | some r =>
-      let want : Option Nat := if r.val = 0 then none else some (r.val - 1)
-      if want ≠ o.val ∨ (r.val = 0) ≠ o.err.isSome then
-        throw (ln, s!"model returns instance={want}", s!"val={o.val} err={o.err}")
+    if st.s.rets.length = nrets then
+      -- no return record: the call ended with a panic (the leader of a panicking create, or a joiner of its flight)
+      if !o.panicked then throw (ln, "model: the call ends with a panic", s!"returned val={o.val} err={o.err}")
+    else
+      if o.panicked then throw (ln, "model: the call returns", "the call panicked")
+      match st.s.rets.head? with
+      | none => throw (ln, "model: no return recorded", "return")
+      | some r =>
+        let want : Option Nat := if r.val = 0 then none else some (r.val - 1)
+        if want ≠ o.val ∨ (r.val = 0) ≠ o.err.isSome then
+          throw (ln, s!"model returns instance={want}", s!"val={o.val} err={o.err}")
     modify fun st => { st with cur := st.cur.del g }
 
 def explain (inj : List (Nat × Nat)) (h : List Obs) : Except Err (Nat × List String) := do
